@@ -123,9 +123,13 @@ def discharge(rec, plan=None, seed=0, budget_scale=1.0):
     if trivially is not None:
         return dict(status=trivially, backend="syntactic", variant="-", seconds=0.0, attempts=[], model=None)
     order = []
+    if smt.get("clearlin"):
+        order.append(("clearlin", "smt", 3))
     if smt.get("clear"):
-        order.append(("clear", "z3", 5))
-        order.append(("clear", "nra", 10))
+        order.append(("clear", "z3", 3))
+        order.append(("clear", "nra", 6))
+    if smt.get("lin"):
+        order.append(("lin", "smt", 3))
     if smt.get("near"):
         order.append(("near", "z3", 2))
     if smt.get("use"):
@@ -247,6 +251,88 @@ def to_smt2(hyps, goal):
         s.add(h)
     s.add(z3.Not(goal))
     return s.to_smt2()
+
+
+def linear_abstraction(hyps, goal):
+    """replace every nonlinear monomial (product of >= 2 non-numeral factors) by a fresh variable named after its sorted
+    factors.  The result is linear real arithmetic; the abstraction has MORE models than the original, so unsat of the
+    abstraction is unsat of the original.  Squares get the fact m >= 0."""
+    cache = {}
+    mono = {}
+
+    def factors(e, acc):
+        if z3.is_app(e) and e.decl().kind() == z3.Z3_OP_MUL:
+            for ch in e.children():
+                factors(ch, acc)
+        else:
+            acc.append(e)
+
+    def walk(e):
+        k = e.get_id()
+        if k in cache:
+            return cache[k]
+        if z3.is_app(e) and e.decl().kind() == z3.Z3_OP_MUL:
+            fs = []
+            factors(e, fs)
+            coef = [f for f in fs if z3.is_rational_value(f) or z3.is_int_value(f)]
+            rest = [walk(f) for f in fs if not (z3.is_rational_value(f) or z3.is_int_value(f))]
+            if len(rest) >= 2:
+                names = sorted(str(r) for r in rest)
+                key = "*".join(names)
+                if key not in mono:
+                    mono[key] = (z3.Real("m!%d" % len(mono)), names)
+                r = mono[key][0]
+            elif len(rest) == 1:
+                r = rest[0]
+            else:
+                r = z3.RealVal(1)
+            for c in coef:
+                r = c * r
+        elif z3.is_app(e) and e.num_args() > 0:
+            r = e.decl()(*[walk(ch) for ch in e.children()])
+        else:
+            r = e
+        cache[k] = r
+        return r
+
+    hs = [walk(h) for h in hyps]
+    g = walk(goal)
+    extra = []
+    for key, (m, names) in mono.items():
+        # even powers are non-negative
+        from collections import Counter
+        if all(c % 2 == 0 for c in Counter(names).values()):
+            extra.append(m >= 0)
+    return hs + extra, g
+
+
+def prune_defs(named_hyps, goal):
+    """drop definitional facts ('def:<atom>') of auxiliary atoms that occur neither in the goal nor in any remaining fact.
+    Dropping hypotheses is always sound; this removes the clutter of quotient / sqrt / min / max atoms that the goal does not
+    depend on (a large speed-up for nlsat)."""
+    cache = {}
+    items = list(named_hyps)
+    gv = _vars_of(goal, cache)
+    changed = True
+    while changed:
+        changed = False
+        used = set(gv)
+        counts = {}
+        for n, h in items:
+            for v in _vars_of(h, cache):
+                counts[v] = counts.get(v, 0) + 1
+        keep = []
+        for n, h in items:
+            if n.startswith("def:"):
+                atom = n[4:]
+                # referenced elsewhere?
+                vs = _vars_of(h, cache)
+                if atom in vs and atom not in gv and counts.get(atom, 0) <= 1:
+                    changed = True
+                    continue
+            keep.append((n, h))
+        items = keep
+    return items
 
 
 def near_hyps(hyps, goal):
